@@ -32,3 +32,12 @@ Proof.
   - f_equal; [specialize (H 0); cbn in H; congruence|].
     apply IH. intros i. exact (H (S i)).
 Qed.
+
+Lemma skipn_skipn {A} (l : list A) n m : skipn n (skipn m l) = skipn (n + m) l.
+Proof.
+  revert l; induction m as [|m IH]; intros l.
+  - rewrite Nat.add_0_r. reflexivity.
+  - destruct l as [|a l].
+    + rewrite !skipn_nil. reflexivity.
+    + rewrite Nat.add_succ_r. cbn [skipn]. apply IH.
+Qed.
